@@ -183,7 +183,33 @@ def work(item, tier, seed):
                     if res.states % 501 == 1:
                         res.add_sample({"program": pname, "args": args, "constrained": [list(p) for p in S], "path": tree.path_json(leaf), "weight": w, "reference_weight": want})
 
-                st = tree.explore(run, gfi.std_menu, on_leaf, max_leaves=20000 if tier == "quick" else 100000, check_determinism=False)
+                leaves_seen = []
+                _on_leaf = on_leaf
+
+                def on_leaf2(leaf, _on_leaf=_on_leaf, leaves_seen=leaves_seen):
+                    _on_leaf(leaf)
+                    if len(leaves_seen) < 2 or tier == "thorough" and len(leaves_seen) < 6:
+                        leaves_seen.append(leaf)
+                    else:
+                        leaves_seen[-1] = leaf  # keep first and last
+
+                st = tree.explore(run, gfi.std_menu, on_leaf2, max_leaves=20000 if tier == "quick" else 100000, check_determinism=False)
+                # the same decision tables replayed eagerly (no jit): same trace, same weight
+                for leaf in leaves_seen:
+                    try:
+                        (etr, ew), _evs = env.run_recorded(gseed(fn.generate), key, jcons, *jargs, mode="script", decisions=leaf.D)
+                        res.evaluations += 1
+                        res.transitions += 1
+                        jtr, jw = leaf.out
+                        if not gfi.tree_bits_equal(R.to_numpy(etr.get_choices()), R.to_numpy(jtr.get_choices())):
+                            res.violate(PROP, f"eager-vs-jit-choices:{pname}:{sigS}", program=pname, args=args, constraints=R.flatten(cons) if cons else None, decisions=tree.D_json(leaf.D))
+                        if not H.close(np.asarray(ew), np.asarray(jw), rtol=1e-5, atol=1e-5):
+                            res.violate(PROP, f"eager-weight:{pname}:{sigS}", program=pname, args=args, constraints=R.flatten(cons) if cons else None, eager_weight=np.asarray(ew), jit_weight=np.asarray(jw), decisions=tree.D_json(leaf.D))
+                        gfi.check_coherent(res, PROP, "generate-eager", pname, prog, args, {}, etr, detail={"config": "eager"})
+                    except Exception as ex:
+                        handler_stack.clear()
+                        res.violate(PROP, f"generate-eager-raises:{pname}:{sigS}", program=pname, args=args, error=f"{type(ex).__name__}: {str(ex)[:300]}")
+                        break
                 res.transitions += st.nodes
                 res.capped |= st.capped
                 if not st.capped:
